@@ -6,17 +6,19 @@ def _gen(repo, verif, bdir, tier):
     sys.path.insert(0, os.path.join(verif, 'harness'))
     import importlib, c08_gen
     importlib.reload(c08_gen)
-    n = c08_gen.generate(bdir, 3 if tier == 'quick' else 4, 2, SHARDS)
+    n = c08_gen.generate(bdir, 3, 2, SHARDS, extra_nodes=0 if tier == 'quick' else 4)
     open(os.path.join(bdir, 'c08_nprogs.txt'), 'w').write(str(n))
 
-def _part(name, cc):
-    return dict(name=name, cc=cc, src=['harness/c08_protothreads.c'], workers=16, prebuild=_gen if name == 'c08' else _gen,
-                objs=[('@BUILD@/c08_progs_%d.c' % i, ['-O1', '-w', '-I@VERIF@/harness']) for i in range(SHARDS)],
+def _part(name, cc, opt, tiers):
+    # -g0: the generated shards are large (thorough: 16 MB each); at -O1 gcc needs minutes per thorough shard, so the
+    # thorough tier compiles at -O0 with both compilers and the quick tier at -O1 with gcc
+    return dict(name=name, cc=cc, src=['harness/c08_protothreads.c'], workers=16, prebuild=_gen, tiers=tiers,
+                objs=[('@BUILD@/c08_progs_%d.c' % i, [opt, '-g0', '-w', '-I@VERIF@/harness']) for i in range(SHARDS)],
                 deadline=dict(quick=200, thorough=2400))
 
 CHECK = dict(
     level='exploration',
-    parts=[_part('c08', 'gcc'), dict(_part('c08clang', 'clang'), tiers=('thorough',))],
+    parts=[_part('c08', 'gcc', '-O1', ('quick',)), _part('c08gcc', 'gcc', '-O0', ('thorough',)), _part('c08clang', 'clang', '-O0', ('thorough',))],
     rule='every protothread body with at most N statements (yield, wait, wait_until, exit, fail, exit_on, fail_on, PT_SPAWN / '
          'PT_SPAWN_AND_CHECK / PT_CALL / PT_SPAWN+PT_CHILD_OK of six fixed children two of which spawn children themselves, '
          'if/else and for-loops over persistent variables nested up to 2 deep) is generated at build time as C using the real PT_* '
@@ -26,7 +28,7 @@ CHECK = dict(
          'with an interpreter of a flat instruction table generated from the same AST; distinct = distinct (return codes, effects) '
          'traces, counted with a hash set',
     bounds=dict(quick='N = 3 statements (about 60 000 programs; exit_on/fail_on also with a double-typed condition), D = 3 departures, gcc',
-                thorough='N = 4 statements, D = 4 departures, compiled with gcc and with clang'),
+                thorough='N = 3 over the full alphabet plus N = 4 over a reduced alphabet of 8 statement kinds, D = 4 departures, compiled with gcc and with clang'),
     assumptions=['scope of the quantifier: one PT_* blocking macro per source line, none inside a nested switch, PT_CHILD_OK consulted '
                  'before the next blocking point, re-invocation after exit only following PT_INIT',
                  'PT_CALL is checked for what the header defines (child restarted and run to completion inside one invocation); '
